@@ -136,13 +136,27 @@ SPEC = {
 # The same on the real run loop (harness component "shutdown", scenarios and monitor of gen/c19.py / model/Shutdown.v):
 # the trusted peer announces a tx twice and does not deliver it; after the window its next activity must bring a second
 # request - on the first trusted connection and after the connection was lost and made again in the same process.
+# And with the REAL monitor of the untrusted nodes (monitorUntrustedNodes dials scripted untrusted peers, one of them
+# slowly): every connected untrusted peer is in the node's list and is never asked for a tx a processed block confirmed.
 import c19
 
 _tracker_keyfn = SPEC["keyfn"]
-SPEC["extra"] = lambda tier, rng, workdir: c19.tracker_reconnect_scenarios(tier, rng, workdir)
-SPEC["keyfn"] = lambda rc: c19.keyfn(rc) if rc.get("suite") == "shutdown_tracker" else _tracker_keyfn(rc)
-SPEC["assumptions"] = list(SPEC["assumptions"]) + [
-    "the tracker histories run on Node / UntrustedNode objects without a run loop; that the trusted connection's tracker still works after Node.Run has lost and re-made the trusted connection is checked separately on the real run loop (gen/c19.py tracker_reconnect_scenarios)"]
+
+
+def _run_loop_scenarios(tier, rng, workdir):
+    a = c19.tracker_reconnect_scenarios(tier, rng, workdir)
+    b = c19.untrusted_list_scenarios(tier, rng, workdir)
+    cov = dict(a.get("coverage", {}))
+    cov.update(b.get("coverage", {}))
+    return {"failures": a["failures"] + b["failures"], "red": a["red"] + b["red"],
+            "evaluations": a["evaluations"] + b["evaluations"], "coverage": cov}
+
+
+SPEC["extra"] = _run_loop_scenarios
+SPEC["keyfn"] = lambda rc: c19.keyfn(rc) if rc.get("suite") in ("shutdown_tracker", "shutdown_ulist") else _tracker_keyfn(rc)
+SPEC["assumptions"] = [a for a in SPEC["assumptions"] if "the set of connections is fixed per history" not in a] + [
+    "the tracker histories run on Node / UntrustedNode objects without a run loop and with a fixed set of listed connections; that the trusted connection's tracker still works after Node.Run has lost and re-made the trusted connection is checked separately on the real run loop (gen/c19.py tracker_reconnect_scenarios)",
+    "how untrusted connections are dialled, monitored, listed and dropped is modelled in coq/model/Shutdown.v (`mstep`: monitorUntrustedNodes with untrustedLock, the list, IsActive waiting for a dialling node, CleanupBlock over the list; C19_untrusted_running_listed, C19_untrusted_no_confirmed_request, witness C19_dial_unlocked_refuted) and exercised on the real run loop by gen/c19.py untrusted_list_scenarios (slow dial over a listen socket with backlog 0, peer dropped and another connected; monitor codes 913 / 914); the random choice among stored addresses is not modelled (scenarios keep it immaterial)"]
 
 if __name__ == "__main__":
     checklib.run_check(SPEC)
